@@ -453,7 +453,7 @@ def fam_meta(seed, n, dirs=("fwd", "rev"), gated=True):
 
 
 GATES = [
-    "cli.alloc", "cli.new.sent", "cli.watch.fired", "cli.credit", "cli.close.teardown",
+    "cli.alloc", "cli.new.sent", "cli.watch.fired", "cli.credit", "cli.close.teardown", "cli.hdr.accept",
     "cli.cancel.finished", "cli.cancel.rcvcancelled", "cli.cancel.emit",
     "cli.finish.cas", "cli.finish.removed", "cli.finish.rcvclosed",
     "srv.reject.emit", "srv.create.checked", "srv.credit", "srv.watch.fired", "srv.watch.cancelled",
